@@ -13,16 +13,17 @@ import (
 // C10 — signing-key rotation is failure-atomic.
 //
 // Events (all resolved by type, none by unexported name):
-//   Create     invoke keys.ManagerInterface.CreateNewSigningKeyVersion
-//   Info       invoke sign/types.CertificateAuthority.Primary{Signing,Root}KeyVersion
-//   SignPrim   static call of sign/ops.CreateCertificateFromTemplate
-//   SignStep   call of any function of package rotate from which SignPrim is
-//              reachable (wrappers transmit failure of the whole signing step)
-//   SetPrimary invoke CertificateAuthorityMutation.SetPrimarySigningKeyVersion
-//   Finalize   invoke CertificateAuthority.Finalize
-//   DestroyOld invoke ManagerInterface.DestroyKeyVersion whose version operand
-//              derives from PrimarySigningKeyVersion (destroying the freshly
-//              created key as clean-up is not this event)
+//
+//	Create     invoke keys.ManagerInterface.CreateNewSigningKeyVersion
+//	Info       invoke sign/types.CertificateAuthority.Primary{Signing,Root}KeyVersion
+//	SignPrim   static call of sign/ops.CreateCertificateFromTemplate
+//	SignStep   call of any function of package rotate from which SignPrim is
+//	           reachable (wrappers transmit failure of the whole signing step)
+//	SetPrimary invoke CertificateAuthorityMutation.SetPrimarySigningKeyVersion
+//	Finalize   invoke CertificateAuthority.Finalize
+//	DestroyOld invoke ManagerInterface.DestroyKeyVersion whose version operand
+//	           derives from PrimarySigningKeyVersion (destroying the freshly
+//	           created key as clean-up is not this event)
 const (
 	c10Create = iota
 	c10Info
